@@ -1,6 +1,6 @@
 (* C19 - struct mapping (pogs) round-trips and agrees with the generated accessors.
    Statements only; each is closed by [exact] of a lemma proved in coq/Pogs. *)
-From CV Require Import Pogs.PogsM Pogs.PogsSpec Pogs.PogsFrame Pogs.PogsProofs Pogs.PogsRoundtrip Pogs.PogsExamples.
+From CV Require Import Pogs.PogsM Pogs.PogsSpec Pogs.PogsFrame Pogs.PogsProofs Pogs.PogsRoundtrip Pogs.PogsTotal Pogs.PogsFuel Pogs.PogsExamples.
 Open Scope Z_scope.
 
 (* every mapped schema whose layout passes the check, every Go value tree, every struct (of any
@@ -51,6 +51,53 @@ Theorem C19_generated_getter_inactive_panics : forall n s dv off t d,
   gen_check_which n s dv = false -> gen_getter n s dv off t d = Panic.
 Proof. exact gen_getter_inactive_panics. Qed.
 Print Assumptions C19_generated_getter_inactive_panics.
+
+(* totality on arbitrary contents (C01 for "extraction into Go structs", model level): for every
+   schema, every struct contents (any sizes, any pointer kinds in any slot), every fuel and both
+   code variants, Extract never panics; its outcome is a value, an error, Unmodelled or OutOfFuel,
+   and an outcome other than OutOfFuel is final (the same for every larger fuel) *)
+Theorem C19_extract_never_panics : forall fixed fuel sch id s,
+  extract_struct fixed fuel sch id s <> Panic.
+Proof. exact extract_never_panics. Qed.
+Print Assumptions C19_extract_never_panics.
+
+Theorem C19_extract_total : forall fixed fuel sch id s,
+  (exists v, extract_struct fixed fuel sch id s = Ok v) \/
+  extract_struct fixed fuel sch id s = Err \/
+  extract_struct fixed fuel sch id s = Unmodelled \/
+  extract_struct fixed fuel sch id s = OutOfFuel.
+Proof. exact extract_total. Qed.
+Print Assumptions C19_extract_total.
+
+Theorem C19_extract_fuel_stable : forall fixed fuel k sch id s,
+  extract_struct fixed fuel sch id s <> OutOfFuel ->
+  extract_struct fixed (k + fuel) sch id s = extract_struct fixed fuel sch id s.
+Proof. exact extract_fuel_stable. Qed.
+Print Assumptions C19_extract_fuel_stable.
+
+(* the stated fuel: need = (pointer nesting depth of the struct tree) * (R+1) + rank + 1, for a
+   schema whose groups / struct-valued Go fields are ranked (finite Go types) and whose struct-
+   and list-typed slots have no default: Extract terminates on arbitrary contents *)
+Theorem C19_extract_fuel_sufficient : forall fixed sch rank R, ranked sch rank R ->
+  forall fuel id s, (need rank R id s <= fuel)%nat ->
+  extract_struct fixed fuel sch id s <> OutOfFuel.
+Proof. exact extract_fuel_sufficient. Qed.
+Print Assumptions C19_extract_fuel_sufficient.
+
+Theorem C19_extract_terminates : forall fixed sch rank R, ranked sch rank R ->
+  forall fuel id s, (need rank R id s <= fuel)%nat ->
+  (exists v, extract_struct fixed fuel sch id s = Ok v) \/
+  extract_struct fixed fuel sch id s = Err \/
+  extract_struct fixed fuel sch id s = Unmodelled.
+Proof. exact extract_terminates. Qed.
+Print Assumptions C19_extract_terminates.
+
+Theorem C19_fuel_nonvacuous : ranked ex_schema ex_rank 1.
+Proof. exact ex_ranked. Qed.
+
+Theorem C19_generated_read_never_panics : forall fuel sch id s, gen_struct fuel sch id s <> Panic.
+Proof. exact gen_struct_never_panics. Qed.
+Print Assumptions C19_generated_read_never_panics.
 
 (* non-vacuity and the refuted pre-fix variant *)
 Theorem C19_nonvacuous : schema_ok 4 ex_schema = true.
